@@ -167,7 +167,8 @@ def worker(case: Dict[str, Any]) -> CaseResult:
     variant_of = {n: VARIANTS[(case["idx"] + i) % len(VARIANTS)] for i, n in enumerate(scalars)}
     if len(scalars) >= 2 and case["idx"] % 7 in (3, 5):
         # several GraphQL scalars sharing one Python type, each with its own functions
-        variant_of = {n: "serialize_str" for n in scalars}
+        # (serialize-only for one residue, parse-only for the other: each function must still be imported and called for its own scalar)
+        variant_of = {n: ("serialize_str" if case["idx"] % 7 == 3 else "parse_str") for n in scalars}
     if uploads and case["idx"] % 8 == 2:
         # pydantic-native values next to files: the multipart route has to serialise them like the JSON route does
         variant_of = {n: "native_datetime" for n in scalars}
